@@ -536,7 +536,11 @@ impl RobotBody {
         skip: &HashSet<usize>,
         safety: &SafetyDistances,
     ) -> bool {
-        !skip.contains(&i) && !skip.contains(&j) &&
+        // A pair can only be skipped when neither of its members moved. The base and the
+        // environment objects never move; a skipped (unmoved) joint can still be hit by a
+        // joint, or the tool, that did move.
+        let unmoved = |k: usize| skip.contains(&k) || k == J_BASE || k >= ENV_START_IDX;
+        !(unmoved(i) && unmoved(j)) &&
             safety.min_distance(i as u16, j as u16) > &NEVER_COLLIDES
     }    
 }
